@@ -153,15 +153,56 @@ def coverage_of(res):
     return cov
 
 
+class ClassSink:
+    """File-like sink for run_tlc: routes every schedule record to <dir>/sched-<L>.ndjson and counts."""
+    _RE = re.compile(r'"L":(\d+)')
+
+    def __init__(self, d):
+        self.dir = d
+        os.makedirs(d, exist_ok=True)
+        self.files = {}
+        self.per_class = collections.Counter()
+        self.eofs = self.pend = 0
+        self.samples = {}
+
+    def write(self, line):
+        ln = int(self._RE.search(line).group(1))
+        f = self.files.get(ln)
+        if f is None:
+            f = self.files[ln] = open(os.path.join(self.dir, "sched-%d.ndjson" % ln), "w")
+        f.write(line)
+        self.per_class[ln] += 1
+        done = '"eof":-1' in line
+        if done != ('"st":"done"' in line):
+            raise C.ToolError("model record with inconsistent outcome: %s" % line)
+        if not done:
+            self.eofs += 1
+        has_pend = "[0," in line or ",0," in line or ",0]" in line or "[0]" in line
+        if has_pend:
+            self.pend += 1
+            key = "eof" if not done else ("long" if ln > 16 else "done")
+            if key not in self.samples and ln >= 8:
+                r = json.loads(line)
+                if len(r["sched"]) >= 5:
+                    self.samples[key] = r
+
+    def close(self):
+        for f in self.files.values():
+            f.close()
+        self.files = {}
+
+
 def run_model(wd, subjects, t, mutant="", only_enum=False):
-    """Returns (stats dict, schedules path)."""
-    exh = [s for s in subjects if s["L"] <= t["exh"]]
-    sim = [s for s in subjects if s["L"] > t["exh"]]
+    """Returns (stats dict, ClassSink)."""
+    # schedules are enumerated / sampled once per length (the representative shape, emit = 1); every
+    # shape up to live_max is model checked exhaustively in the no-history configuration
+    exh = [s for s in subjects if s["L"] <= t["exh"] and s["emit"]]
+    sim = [s for s in subjects if s["L"] > t["exh"] and (s["emit"] or s["L"] > t["live_max"])]
     live = [s for s in subjects if s["L"] <= t["live_max"]]
-    sched_path = os.path.join(wd, "schedules.ndjson")
+    sink = ClassSink(os.path.join(wd, "schedules" + ("-" + mutant if mutant else "")))
     stats = {}
     base_env = {"C06_MAXRUN": MAXRUN, "C06_MUTANT": mutant}
-    with open(sched_path, "w") as sink:
+    if True:
         p = os.path.join(wd, "subjects-enum.ndjson")
         write_subjects(p, exh)
         env = dict(base_env, C06_SUBJECTS=p, C06_MODE="enum")
@@ -172,7 +213,8 @@ def run_model(wd, subjects, t, mutant="", only_enum=False):
                              wall=round(res.wall, 1), coverage=coverage_of(res), violated=res.violated,
                              finished=res.finished)
         if only_enum:
-            return stats, sched_path
+            sink.close()
+            return stats, sink
         missing = [a for a in ("DeliverAny", "ReturnPending", "Eof", "Take", "CompleteRead")
                    if stats["enum"]["coverage"].get(a, (0, 0))[1] == 0]
         if missing:
@@ -188,6 +230,7 @@ def run_model(wd, subjects, t, mutant="", only_enum=False):
                             simulate=per_worker, depth=100000000)
             stats["sim"] = dict(subjects=len(sim), walks=per_worker * w, generated=res.generated,
                                 wall=round(res.wall, 1))
+    sink.close()
     p = os.path.join(wd, "subjects-live.ndjson")
     write_subjects(p, live)
     env = dict(base_env, C06_SUBJECTS=p, C06_MODE="live")
@@ -197,44 +240,32 @@ def run_model(wd, subjects, t, mutant="", only_enum=False):
         raise C.ToolError("ChunkedRead live run did not finish (log %s)" % res.log_path)
     stats["live"] = dict(subjects=len(live), generated=res.generated, distinct=res.distinct, depth=res.depth,
                          wall=round(res.wall, 1))
-    return stats, sched_path
-
-
-def schedule_stats(path):
-    per_class = collections.Counter()
-    eofs = pend = 0
-    samples = {}
-    with open(path) as f:
-        for line in f:
-            r = json.loads(line)
-            per_class[r["L"]] += 1
-            if r["eof"] >= 0:
-                eofs += 1
-            if 0 in r["sched"]:
-                pend += 1
-            if (r["eof"] >= 0) != (r["st"] == "failed"):
-                raise C.ToolError("model record with inconsistent outcome: %s" % line)
-            if len(r["sched"]) >= 5 and 0 in r["sched"] and r["L"] >= 8:
-                key = "eof" if r["eof"] >= 0 else ("long" if r["L"] > 16 else "done")
-                samples.setdefault(key, r)
-    return per_class, eofs, pend, list(samples.values())
+    return stats, sink
 
 
 # ----------------------------------------------------------------------------------------------
 # replay
 # ----------------------------------------------------------------------------------------------
 
-def order_records(records, per_class):
-    """Heaviest first so that the parallel feeder balances."""
-    return sorted(records, key=lambda r: -per_class.get(r["cls"], 0))
-
-
-def execute(binary, sched_path, records, t, fault=None):
-    args = ["chunks", sched_path]
+def execute(binary, sched_dir, records, t, fault=None, per_class=None):
+    """Runs `vh chunks` over the records (grouped by schedule class, heaviest classes first, one
+    record per process where a class has many schedules)."""
+    args = ["chunks", sched_dir]
     if fault:
         args += ["--fault", fault]
-    lines = [json.dumps(r, separators=(",", ":")) for r in records]
-    verdicts, totals = R.run_records(binary, args, lines, chunk=6, jobs=t["jobs"], timeout=3000)
+    per_class = per_class or {}
+    records = sorted(records, key=lambda r: (-per_class.get(r["cls"], 0), r["cls"]))
+    heavy = [r for r in records if per_class.get(r["cls"], 0) > 20000]
+    light = [r for r in records if per_class.get(r["cls"], 0) <= 20000]
+    verdicts, totals = [], {"records": 0, "ok": 0}
+    for part, chunk in ((heavy, 1), (light, 24)):
+        if not part:
+            continue
+        lines = [json.dumps(r, separators=(",", ":")) for r in part]
+        vs, tt = R.run_records(binary, args, lines, chunk=chunk, jobs=t["jobs"], timeout=3000)
+        verdicts.extend(vs)
+        totals["records"] += tt["records"]
+        totals["ok"] += tt["ok"]
     stats = collections.Counter()
     by_entry = collections.Counter()
     out = []
@@ -286,14 +317,13 @@ def run(tier):
     t0 = time.time()
     t, ctx, records, typed, subjects, binary = prepare(tier, "c06")
     wd = C.workdir(PROP)
-    mstats, sched_path = run_model(wd, subjects, t)
-    per_class, n_eof, n_pend, samples = schedule_stats(sched_path)
+    mstats, sink = run_model(wd, subjects, t)
+    per_class, n_eof, n_pend, samples = sink.per_class, sink.eofs, sink.pend, list(sink.samples.values())
     for r in records:
         if per_class.get(r["cls"], 0) == 0:
             raise C.ToolError("no schedule for message length %d (%s)" % (r["cls"], r["name"]))
-    records = order_records(records, per_class)
     t1 = time.time()
-    verdicts, totals, hstats, by_entry = execute(binary, sched_path, records, t)
+    verdicts, totals, hstats, by_entry = execute(binary, sink.dir, records, t, per_class=per_class)
     C.log("[c06] model %.1fs, replay %.1fs: %d records, %d schedules, %d async read runs, %d async write runs"
           % (t1 - t0, time.time() - t1, len(records), sum(per_class.values()), hstats.get("read_runs", 0),
              hstats.get("write_runs", 0)))
@@ -349,8 +379,8 @@ def replay(path):
     d = o["detail"]
     wd = C.workdir(PROP + "-replay")
     ln = len(rec["hdr"]) + len(rec["body"])
-    sp = os.path.join(wd, "schedules.ndjson")
-    with open(sp, "w") as f:
+    sp = wd
+    with open(os.path.join(wd, "sched-%d.ndjson" % ln), "w") as f:
         f.write(json.dumps({"sid": ln, "L": ln, "sched": d["sched"], "eof": d["eof"]}) + "\n")
     rec = dict(rec, cls=ln)
     gen_chunks.main(replay_typed(rec, beh.get("typed")))
@@ -386,7 +416,8 @@ def selftest(tier):
     small = [r for r in records if r["cls"] <= 6][:60] + [r for r in records if r["cls"] > 40][:40]
     subj = build_subjects(small, t)
     wd = C.workdir(PROP + "-selftest")
-    mstats, sched_path = run_model(wd, subj, t)
+    mstats, sink = run_model(wd, subj, t)
+    sched_path = sink.dir
     ok = True
     base, _, _, _ = execute(binary, sched_path, small, t)
     print("selftest C06: unmodified transport: %d disagreements on %d records" % (len(base), len(small)))
@@ -396,17 +427,21 @@ def selftest(tier):
         bad = {(o["name"], o["exp"], o.get("lv"), o["dir"], o.get("prof"), o.get("id")) for o in verdicts
                if o["verdict"] == "disagree"}
         print("selftest C06: transport fault '%s': %d of %d records rejected" % (fault, totals["records"] - totals["ok"], len(small)))
-        ok &= (totals["records"] - totals["ok"]) >= len(small) * 0.9 and len(bad) > 0
+        # (repeating a byte is invisible where the byte equals its neighbour, e.g. runs of zeros)
+        ok &= (totals["records"] - totals["ok"]) >= len(small) * (0.9 if fault == "drop" else 0.3) and len(bad) > 0
     # 2. corrupt one model record
-    lines = open(sched_path).read().splitlines()
+    bad_dir = os.path.join(wd, "schedules-corrupt")
+    os.makedirs(bad_dir, exist_ok=True)
+    victim = next(r for r in small if r["cls"] >= 3)
+    cls = victim["cls"]
+    lines = open(os.path.join(sched_path, "sched-%d.ndjson" % cls)).read().splitlines()
     idx = next(i for i, l in enumerate(lines) if json.loads(l)["eof"] > 0)
     r = json.loads(lines[idx])
     r["eof"] = -1
     lines[idx] = json.dumps(r)
-    bad_path = os.path.join(wd, "schedules-corrupt.ndjson")
-    open(bad_path, "w").write("\n".join(lines) + "\n")
+    open(os.path.join(bad_dir, "sched-%d.ndjson" % cls), "w").write("\n".join(lines) + "\n")
     try:
-        execute(binary, bad_path, small[:3], t)
+        execute(binary, bad_dir, [victim], t)
         print("selftest C06: corrupted model record NOT detected")
         ok = False
     except C.ToolError as e:
